@@ -23,7 +23,7 @@ import (
 )
 
 func TestMain(m *testing.M) {
-	vstat.Rule("Frozen clock; breaker with generated fallback/recovery/check durations (whole-ms grid) and an error-ratio condition; the protected handler is a gate so requests can be in flight across the trip. Steps: advance(d) (d = whole ms + 1us, sized relative to check period, fallback and recovery durations), start, finish(k,status) in any order, failing bursts. Oracle from observation only: a trip instant T is known when String() turns to tripped at a quiescent point; every request arriving at a with T <= a < T+fallback must be answered by the fallback and must not reach the handler, whatever is in flight and however it completes; while the state reads standby every arriving request reaches the handler; observed state changes follow standby->tripped->recovering->{standby,tripped}. Non-trivial: a trip with >= 1 request in flight across it and >= 1 arrival inside the fallback interval at an offset other than 0.")
+	vstat.Rule("Frozen clock; breaker with generated fallback/recovery/check durations (whole-ms grid) and an error-ratio condition; the protected handler is a gate so requests can be in flight across the trip. Steps: advance(d) (d = whole ms + 1us, sized relative to check period, fallback and recovery durations), start, finish(k,status) in any order, failing bursts. Oracle from observation only: a trip instant T is known when String() turns to tripped at a quiescent point; every request arriving at a with T <= a < T+fallback must be answered by the fallback and must not reach the handler, whatever is in flight and however it completes; while the state reads standby every arriving request reaches the handler; observed state changes follow standby->tripped->recovering->{standby,tripped}. Non-trivial: a trip with >= 1 request in flight across it and >= 1 arrival inside the fallback interval at an offset other than 0. Later additions: requests may carry Connection: Upgrade, an already cancelled or expired context; Wrap(same handler) is called at arbitrary points (state must not move); loggers that format their arguments; side effects that hang until the case ends.")
 	vstat.Main(m.Run)
 }
 
